@@ -146,6 +146,9 @@ func gen(c *core.Ctx) error {
 			for _, parts := range compositions(L) {
 				for _, kind := range []string{"buffered", "direct"} {
 					k++
+					su := su
+					su.ReadMax = []int{0, 1, 3, 0, 5}[k%5] // short reads on the connection
+					su.Ctx = k%2 == 0
 					d := &desc{Setup: su, Dirs: []bool{true, false}, API: []string{apis[k%3], apis[(k+1)%3]}, Chunk: 1 + k%3,
 						Msgs: [][]ss.Msg{{{Kind: kind, Chunks: chunksOf(k, parts)}, {Kind: "direct", Chunks: []ss.Data{ss.Pay(7, 3)}}},
 							{{Kind: kind, Chunks: chunksOf(k+1, parts)}}}}
@@ -189,6 +192,12 @@ func gen(c *core.Ctx) error {
 				// buffered in unequal chunks / as partial frames
 				if n > 0 && !later && (n < 100000 || n == M-16 || (!c.Quick() && n%5 == 0)) {
 					parts := []int{n / 3, n - n/3}
+					su := su
+					su.ReadMax = []int{0, 1000, 4096, 1}[(n+si)%4]
+					if n > 100000 && su.ReadMax == 1 {
+						su.ReadMax = 65536
+					}
+					su.Ctx = n%2 == 1
 					d2 := &desc{Setup: su, Dirs: []bool{true}, API: []string{apis[(si+n)%3]}, Chunk: 1 + n/2,
 						Msgs: [][]ss.Msg{{{Kind: "buffered", Chunks: chunksOf(3, parts)}}}}
 					try(d2)
